@@ -156,6 +156,14 @@ def run(ctx):
         if ctx.mine(k) and (not ctx.quick or GS_size(e) < 3000):
             ctx.count('corpus_expressions')
             judge(ctx, 'corpus-' + kind, e)
+    # long strings / byte strings / annotations, hundreds of elements and arguments, deep nesting
+    if ctx.mine(0):
+        from rv.gen import micheline as GM
+        for label, e in GM.large_shapes(rng, ctx.quick):
+            if label.startswith('seq') and len(e) > 5000:
+                continue
+            ctx.count('large_shapes')
+            judge(ctx, 'large-' + label.rsplit('-', 1)[0], e)
     ctx.run_again()
     ctx.require('roundtrips', 200)
     ctx.require('multi_line_outputs', 10)
